@@ -612,6 +612,83 @@ func TestAliasing(t *testing.T) {
 			r.ok("immutable")
 		}
 	}
+	// only BackPropagate assigns gradients: shape-preserving ("identity") calls of every shape operation neither drop the
+	// receiver's gradient, nor hand the receiver back, nor disturb a later back-propagation through the receiver
+	for _, shape := range shapes(1, 3, 3) {
+		a := randRef(rng, shape, -1, 1)
+		last := len(shape) - 1
+		idops := []struct {
+			name string
+			f    func(x tensor.Tensor) (tensor.Tensor, error)
+		}{
+			{"Reshape-same", func(x tensor.Tensor) (tensor.Tensor, error) { return x.Reshape(append([]int{}, shape...)) }},
+			{"Flatten-last", func(x tensor.Tensor) (tensor.Tensor, error) { return x.Flatten(last) }},
+			{"Broadcast-same", func(x tensor.Tensor) (tensor.Tensor, error) { return x.Broadcast(append([]int{}, shape...)) }},
+			{"Slice-nil", func(x tensor.Tensor) (tensor.Tensor, error) { return x.Slice(nil) }},
+			{"Patch-nil", func(x tensor.Tensor) (tensor.Tensor, error) { return x.Patch(nil, x) }},
+			{"Transpose", func(x tensor.Tensor) (tensor.Tensor, error) {
+				if len(shape) < 2 {
+					return x.Scale(1), nil
+				}
+				return x.Transpose()
+			}},
+			{"Concat-single", func(x tensor.Tensor) (tensor.Tensor, error) { return tensor.Concat([]tensor.Tensor{x}, 0) }},
+			{"UnSqueeze-Squeeze", func(x tensor.Tensor) (tensor.Tensor, error) {
+				u, err := x.UnSqueeze(0)
+				if err != nil {
+					return nil, err
+				}
+				return u.Squeeze(0)
+			}},
+			{"Pow1", func(x tensor.Tensor) (tensor.Tensor, error) { return x.Pow(1), nil }},
+			{"Scale1", func(x tensor.Tensor) (tensor.Tensor, error) { return x.Scale(1), nil }},
+		}
+		for _, op := range idops {
+			op := op
+			guard(r, "alias:identity-"+op.name, func() {
+				// (a) a gradient assigned earlier survives
+				w := toT(a, true)
+				if err := tensor.BackPropagate(w.Scale(3)); err != nil {
+					return
+				}
+				g0 := fromT(w.Gradient())
+				y, err := op.f(w)
+				if err != nil {
+					return
+				}
+				if y == w {
+					r.fail("alias:identity-"+op.name, fmt.Sprintf("shape %v: the operation handed its receiver back", shape))
+					return
+				}
+				if w.Gradient() == nil || eqRef(w.Gradient(), g0, 0) != "" {
+					r.fail("alias:identity-"+op.name, fmt.Sprintf("shape %v: the receiver's gradient changed without a back-propagation", shape))
+					return
+				}
+				// (b) an unused result does not disturb a later back-propagation
+				x := toT(a, true)
+				if _, err := op.f(x); err != nil {
+					return
+				}
+				if x.Gradient() != nil {
+					r.fail("alias:identity-"+op.name, fmt.Sprintf("shape %v: a gradient appeared without a back-propagation", shape))
+					return
+				}
+				if err := tensor.BackPropagate(x.Scale(2)); err != nil {
+					r.fail("alias:identity-"+op.name, "back-propagation failed: "+err.Error())
+					return
+				}
+				want := newRef(shape)
+				for i := range want.Data {
+					want.Data[i] = 2
+				}
+				if msg := eqRef(x.Gradient(), want, 1e-12); msg != "" {
+					r.fail("alias:identity-"+op.name, fmt.Sprintf("shape %v: later back-propagation disturbed: %s", shape, msg))
+					return
+				}
+				r.ok("identity call leaves the receiver alone")
+			})
+		}
+	}
 	// nested data passed to TensorOf
 	d2 := [][]float64{{1, 2}, {3, 4}}
 	x, _ := tensor.TensorOf(d2, nil)
